@@ -811,12 +811,13 @@ class Pipeline:
             key = "+".join(sorted(sws))
             self.classes[key] = self.classes.get(key, 0) + 1
             open_ids = {k["id"] for k in rep.known}
+            if any(fid not in open_ids for fid in fids):
+                # the class of a repaired (or never listed) finding: a violation like any other
+                self.report_mismatch(t, v, label, c, h, "deviation of a class that is not an open finding (%s)" % ", ".join(f for f in fids if f not in open_ids))
+                return
             for fid in fids:
-                if fid in open_ids:
-                    rep.known_finding(fid, "`%s` -> %s; property: %s" % (
-                        " ".join(a.replace(c["root"], "<root>") for a in h["args"]), short(t["obs"]), short(v.get("exp"))))
-                else:
-                    self.bump("classified_not_listed:" + fid)
+                rep.known_finding(fid, "`%s` -> %s; property: %s" % (
+                    " ".join(a.replace(c["root"], "<root>") for a in h["args"]), short(t["obs"]), short(v.get("exp"))))
             if "deviation_samples" not in rep.cov:
                 rep.cov["deviation_samples"] = {}
             if key not in rep.cov["deviation_samples"]:
